@@ -271,7 +271,10 @@ func (p *peer) Dial(addr string, protoFunc ...ProtoFunc) (Session, *Status) {
 
 	Infof("dial ok (network:%s, addr:%s, id:%s)", p.network, addr, sess.ID())
 	p.sessHub.set(sess)
-	sess.changeStatus(statusOk)
+	if !sess.tryChangeStatus(statusOk, statusPreparing) {
+		// closed meanwhile (its id was taken over, or the peer is closing): it must not come back to life
+		return nil, statConnClosed.Copy("the session was closed while it was being set up")
+	}
 	AnywayGo(sess.startReadAndHandle)
 	return sess, nil
 }
@@ -302,7 +305,10 @@ func (p *peer) ServeConn(conn net.Conn, protoFunc ...ProtoFunc) (Session, *Statu
 	Infof("serve ok (network:%s, addr:%s, id:%s)", network, sess.RemoteAddr().String(), sess.ID())
 	// index the session before its read loop can end it (as the listener path does)
 	p.sessHub.set(sess)
-	sess.changeStatus(statusOk)
+	if !sess.tryChangeStatus(statusOk, statusPreparing) {
+		// closed meanwhile (its id was taken over, or the peer is closing): it must not come back to life
+		return nil, statConnClosed.Copy("the session was closed while it was being set up")
+	}
 	AnywayGo(sess.startReadAndHandle)
 	return sess, nil
 }
@@ -379,7 +385,10 @@ func (p *peer) serveListener(lis net.Listener, protoFunc ...ProtoFunc) error {
 			}
 			Infof("accept ok (network:%s, addr:%s, id:%s)", network, sess.RemoteAddr().String(), sess.ID())
 			p.sessHub.set(sess)
-			sess.changeStatus(statusOk)
+			if !sess.tryChangeStatus(statusOk, statusPreparing) {
+				// closed meanwhile (its id was taken over, or the peer is closing): it must not come back to life
+				return
+			}
 			sess.startReadAndHandle()
 		})
 	}
